@@ -38,6 +38,7 @@ public:
   ~CPPManifest();
 
   static std::string stringify(const std::string &source);
+  static bool would_paste(char a, char b);
   void extract_args(vector_string &args, const std::string &expr, size_t &p) const;
   std::string expand(const vector_string &args = vector_string(),
                      bool expand_undefined = false,
@@ -76,6 +77,7 @@ private:
     bool _stringify;
     bool _paste;
     bool _optional;
+    bool _space;  // preceded by white space in the replacement list
     std::string _str;
     std::vector<ExpansionNode> _nested;
   };
